@@ -335,7 +335,7 @@ func TestVF_C15(t *testing.T) {
 	rng := vfRng(15)
 	// (a) exhaustive sequential sequences against every capacity 1..3
 	alpha := []string{"Un", "Uu", "c", "X"}
-	maxLen := vfN(5, 7)
+	maxLen := vfN(5, 6)
 	nseq := 0
 	var gen func(prefix []string, depth int)
 	for capacity := 1; capacity <= 3; capacity++ {
@@ -385,7 +385,7 @@ func TestVF_C15(t *testing.T) {
 		}
 	}
 	// (c) random concurrent histories: blocked pushers and poppers, cancels, close, small batches
-	nrand := vfN(250, 3000)
+	nrand := vfN(250, 1500)
 	ops := []string{"P", "P", "P", "Un", "Uu", "Bn", "Bn", "Bu", "C0", "C1", "c", "S", "S", "X", "H", "R"}
 	for c := 0; c < nrand; c++ {
 		capacity := 1 + rng.Intn(3)
